@@ -31,8 +31,10 @@ shape("args_mapping_modifier", "src/codemodder/codemods/import_modifier_codemod.
       "args_variant", "ArgsAsWritten",
       ["MappingImportedCallModifier.update_attribute", "MappingImportedCallModifier.update_simple_name"],
       doc="MappingImportedCallModifier: updated_node.with_changes(args=new_args, func=Attribute(import_name, last name))")
-shape("args_pyyaml", "src/core_codemods/harden_pyyaml.py", ["C16"], "pyyaml_shape", "args_variant", "ArgsAsWritten",
-      ["HardenPyyamlCallMixin.update_call"], doc="harden-pyyaml update_call: args[:1] + args[1].with_changes(value=SafeLoader)")
+shape("args_pyyaml", "src/core_codemods/harden_pyyaml.py", ["C16"], "pyyaml_shape", "pyyaml_variant", "PyyamlByParameter",
+      ["HardenPyyamlCallMixin.update_call"],
+      doc="harden-pyyaml update_call: PyyamlByIndex = args[:1] + args[1].with_changes(value=SafeLoader) (pinned tree); "
+          "PyyamlByParameter = the argument binding Loader gets the value, all others kept (proposed_fixes/pyyaml-loader-argument.diff)")
 shape("args_cookie", "src/core_codemods/secure_cookie_mixin.py", ["C16", "C07"], "cookie_shape", "args_variant",
       "ArgsAsWritten", ["SecureCookieMixin._choose_new_args"], doc="SecureCookieMixin._choose_new_args")
 shape("args_cookie_flask", "src/core_codemods/secure_flask_cookie.py", ["C16"], "cookie_flask_shape", "args_variant",
